@@ -575,9 +575,10 @@ class HistoryRunner:
         if op != "drop":
             self.oracle_after(desc, before, outcome, target)       # the oracle never looks at the model: evaluated first
         if op in ("lock", "unlock") and outcome.startswith("other:"):
-            # D60: the lock error path formats repr(self), which raises for some heterogeneous lazy stacks; the model has no repr
-            self.unsupported = "lock error path raised a non-RuntimeError (repr of a heterogeneous lazy stack)"
-            return False
+            # the lock error path formats repr(self), which raises TypeError/AttributeError for some heterogeneous lazy stacks:
+            # for the model this is the lock error (since the fix of D60 the state is restored whatever was raised)
+            self.count("unlock-error-message-raised-" + outcome[6:])
+            outcome = "runtime"
         if not self.model_step(opsx, outcome, new_obj):
             return False
         if new_obj is not None:
@@ -785,8 +786,7 @@ class HistoryRunner:
         self.trace.append(d)
         self.oracle_after(d, before, out, h)
         if out.startswith("other:"):
-            self.unsupported = "lock error path raised a non-RuntimeError (repr of a heterogeneous lazy stack)"
-            return False
+            out = "runtime"
         if not self.model_step(sx([Sym(which), n]), out):
             return False
         if cm is None:
@@ -801,9 +801,9 @@ class HistoryRunner:
                     if not self.step():
                         ok = False
                         break
+                before_exit = snapshot_locked(W)
                 if escape and ok:
                     raise ValueError("escape")
-                before_exit = snapshot_locked(W)
         except ValueError:
             pass
         except Exception as e:  # noqa: BLE001 -- raised by the inverse call inside __exit__ (body calls are caught one by one)
@@ -812,7 +812,8 @@ class HistoryRunner:
         self.pinned.pop()
         if not ok:
             return False
-        if not escape and post != pre:
+        if post != pre:
+            # __exit__ reverts lock_()/unlock_() also when the body raised (fix D53-D54-D60)
             inv = "lock" if which == "unlock" else "unlock"
             out = exit_exc or "ok"
             d = {"op": inv, "n": n, "outcome": out, "with": "exit"}
@@ -820,8 +821,7 @@ class HistoryRunner:
             if before_exit is not None:
                 self.oracle_after(d, before_exit, out, h)
             if out.startswith("other:"):
-                self.unsupported = "lock error path raised a non-RuntimeError (repr of a heterogeneous lazy stack)"
-                return False
+                out = "runtime"
             if not self.model_step(sx([Sym(inv), n]), out):
                 return False
         return True
@@ -1134,12 +1134,9 @@ def main(R):
         "h5 (PersistentTensorDict) and distributed/process-pool calls are outside the run (listed under reflection.excluded_names)",
     ]
     R.extra["stated_not_proved"] = {
-        "C05_locked_frozen_full_statement": "false of the unchanged code (D8, exclude(inplace=True)); proved on the complement: C05_locked_frozen; refuted: C05_locked_frozen_refuted_D8",
-        "C05_member_cannot_unlock_full_statement": "false of the unchanged code (D7, memmap_ builds no lock graph); proved for nodes locked through lock_: "
-                                                   "C05_member_cannot_unlock; refuted: C05_member_cannot_unlock_refuted_D7",
-        "model scope": "lazy stacks created without members are outside in_scope (D56 witness C05_hollow_lazy_refuted_D56); "
-                       "tensorclass / TensorDictParams / _SubTensorDict / NonTensorData and calls routed through a lazy stack to its members are covered "
-                       "by the reflection and writes streams (oracle) only, not by the model"}
+        "model scope": "tensorclass / TensorDictParams / _SubTensorDict / NonTensorData and calls routed through a lazy stack to its members are "
+                       "covered by the reflection and writes streams (oracle) only, not by the model; the full statements of locked_frozen and "
+                       "member_cannot_unlock are proved (the refutations of D7, D8, D55, D56 went away with the fix commits)"}
     R.trusted = ["harness/c05_reflect.py argument synthesis (coverage measured: reflection.* in this file)",
                  "pickle, mmap, shared memory, CPython weakref/gc behaviour"]
     try:
